@@ -169,7 +169,14 @@ func (r *DataReader) EcsLocation(q []byte, ecs *dns.EDNS0_SUBNET) (*Location, er
 		bits = 8 * net.IPv6len
 	}
 	mask := net.CIDRMask(int(ecs.SourceNetmask), bits)
-	ipnet := net.IPNet{IP: ecs.Address, Mask: mask}
+	// the client's prefix is the first SourceNetmask bits: address bits beyond
+	// it (they can arrive inside the last octet sent) must not take part in the
+	// lookup, or a declared subnet longer than the source prefix may match
+	addr := ecs.Address
+	if masked := addr.Mask(mask); masked != nil {
+		addr = masked
+	}
+	ipnet := net.IPNet{IP: addr, Mask: mask}
 
 	loc, err := r.findLocation(q, []byte{0, '8'}, &ipnet)
 	if err != nil {
